@@ -585,6 +585,44 @@ func TestC03(t *testing.T) {
 		}
 		st.Sample(map[string]any{"src": src, "aliases": al, "verdict": v.String()})
 	}
+	// (vii') a reserved word that comes out of an alias in the place of a
+	// command name behind assignments or redirections is an ordinary word:
+	// the construct it would close (or open) is not closed (or opened)
+	{
+		frames := [][3]string{
+			{"if a ; then", "fi", ""}, {"while", "do", "c ; done"}, {"{", "}", ""}, {"if", "then", "c ; fi"},
+			{"for i in x ; do", "done", ""}, {"case x in a )", "esac", ""}, {"if a ; then b ;", "else", "c ; fi"},
+			{"if a ; then b ;", "elif", "c ; then d ; fi"}, {"until", "do", "c ; done"},
+			{"", "if", "a ; then b ; fi"}, {"", "{", "a ; }"}, {"", "while", "a ; do b ; done"}, {"", "!", "a"},
+		}
+		k := 0
+		for _, fr := range frames {
+			for _, prefix := range []string{"b=1", "> f", "b=1 < f c=2", "2 >& 1", "c ;", "c &&", ""} {
+				for vi, value := range []string{"%s", "%s ", "zr", "zr "} {
+					k++
+					if k%nsh != sh || prefix == "" && fr[0] == "" {
+						continue
+					}
+					toks := strings.Fields(fr[0] + " " + prefix + " " + fr[1] + " " + fr[2])
+					var rs []ref.RTok
+					for _, tk := range toks {
+						rs = append(rs, rtokOfText(tk))
+					}
+					v := ref.Recognise(rs)
+					al := map[string]string{"zq": strings.Replace(value, "%s", fr[1], 1)}
+					if vi >= 2 {
+						al["zr"] = fr[1]
+					}
+					src := strings.Join(strings.Fields(fr[0]+" "+prefix+" zq "+fr[2]), " ")
+					c := c03Case{Src: src, Verdict: v.String(), How: fmt.Sprintf("token string %q with %q coming out of an alias", toks, fr[1]), Aliases: al}
+					run(t, c, len(toks), 1, false)
+					st.Class("reserved_word_out_of_an_alias_behind_a_prefix")
+				}
+			}
+		}
+		st.Note("%d frames x 7 command beginnings x 4 alias values: a reserved word that is the value of an alias used as command name behind a prefix (ordinary word: the program stays ill-formed) or at the beginning of a command (reserved word)", len(frames))
+	}
+
 	runRapid(t, n*3, aliasProp)
 	st.Note("alias-spread token strings: random strings of 1-5 tokens of the same alphabet whose first k tokens are the value of an alias (optionally the first j of them the value of a second alias the first one begins with), with and without blanks next to control operators and at the end of the values; the verdict is that of the plain token string")
 }
